@@ -79,4 +79,11 @@ theorem exec_agree_solo [DecidableEq Tid] {S : Sys Loc Val Tid} (hW : WritesOwn 
       simp only [exec]
       exact agree_trans (ih (S.step u m)) (agree_solo hW hR _ (agree_step_other hW hu m))
 
+/-- locations of a process that runs several loads: package-level variables of the library (shared, owned by no load) and
+    everything else (`priv`: load-local values, the caller's own data) -/
+inductive PLoc (L : Type) where
+  | global (pkg var : String)
+  | priv (l : L)
+deriving DecidableEq
+
 end CV.Interleave
